@@ -230,6 +230,17 @@ def decorate(rng, prog):
             part["custom_flags_reversed"] = True
         if part["id"] != "c" and rng.random() < 0.3:
             part["custom_flags_trailing_comma"] = True
+    # parameterless queries named like methods a handle / querier type might have itself: the generated helper of that
+    # name must still send the contract's own query
+    for part in prog["parts"]:
+        qs = [h for h in part["handlers"] if h["kind"] == "query" and not h.get("resp_explicit")]
+        if qs and rng.random() < 0.12:
+            h = rng.choice(qs)
+            nm = rng.choice(["code_id", "contract_info", "contract_address", "balance", "address", "admin_of", "raw"])
+            used_names = {x["name"] for x in part["handlers"]} | {T.wire_name(x["name"]) for p_ in prog["parts"] for x in p_["handlers"] if x["kind"] == "query"}
+            if nm not in used_names:
+                h["name"], h["safe"], h["args"] = nm, True, []
+                h["hid"] = f"{part['id']}.query.{nm}"
     ifaces = prog["parts"][1:]
     for part in ifaces:
         # the cw1 shape: an exec handler taking messages typed with the interface's own `ExecC`
